@@ -726,12 +726,27 @@ func c15Reader(c *Ctx) {
 		r.Undecided("C15-D4", "readerFromURL", "-", "anchor not found")
 		return
 	}
+	// a return that hands out (something made from) the response: when the fetch was folded into the reader that
+	// also opens local files, only these returns are meant
+	folded := p.FnExact("(*filtering.DNSFilter).readerFromURL") == nil
 	nonNilReader := func(in ssa.Instruction) bool {
 		ret, ok := core.AsReturn(in)
 		if !ok || len(ret.Results) != 2 {
 			return false
 		}
-		return !core.IsNilConst(core.ResolveLocalLoad(core.Res(ret, 0)))
+		v := core.ResolveLocalLoad(core.Res(ret, 0))
+		if core.IsNilConst(v) {
+			return false
+		}
+		if !folded {
+			return true
+		}
+		for _, o := range core.Origins(v, core.ProvOpts{Prog: p}) {
+			if o.Kind == "field" && strings.HasSuffix(o.Key, "http.Response.Body") {
+				return true
+			}
+		}
+		return false
 	}
 	g1, n1 := core.CondEdges(fn, func(at core.Atom) (bool, bool) {
 		if at.Op != token.EQL && at.Op != token.NEQ {
